@@ -104,6 +104,7 @@ class DB:
         self.records = [r for r in recs if r["t"] == "record"]
         self.vars = [r for r in recs if r["t"] == "var"]
         self.aliases = [r for r in recs if r["t"] == "alias"]
+        self.enums = dict((r["q"], r) for r in recs if r["t"] == "enum")
         self.skipped = [r for r in recs if r["t"] == "skipped"]
         self.macros = [r for r in recs if r["t"] == "macro"]
         self.diags = [r for r in recs if r["t"] == "diag"]
